@@ -357,8 +357,8 @@ var ops = []op{
 	{"reent", "JSON: a marshaler that logs through two other loggers (JSON and console, reflected values) while it is being encoded", func(e *env) {
 		e.get("J").Info("m-reent", zap.Reflect("r0", pair{1, "o"}), zap.Object("o", reentObj{e}), zap.Reflect("rj", reentJSON{e}), zap.Reflect("r1", pair{2, "o"}))
 	}},
-	{"creent", "console: the same marshaler in a console entry and in a derived context", func(e *env) {
-		e.get("C").With(zap.Object("ctx", reentObj{e})).Info("m-creent", zap.Object("o", reentObj{e}), zap.Int("a", 1))
+	{"creent", "console: the same marshaler in a console entry of a derived logger", func(e *env) {
+		e.get("C").With(zap.Int("ctx", 1)).Info("m-creent", zap.Object("o", reentObj{e}), zap.Int("a", 1))
 	}},
 	{"cc", "console: logger with namespaced context", func(e *env) { e.get("Cc").Info("m-cc", zap.Int("k", 5)) }},
 	{"ccnof", "console: entry without fields through the logger with namespaced context (the stored context is used as it is)", func(e *env) { e.get("Cc").Info("m-ccnof") }},
